@@ -51,7 +51,7 @@ InitState(dbInit) ==
 
 \* a step/event record: every field always present
 E0 == [act |-> "none", b |-> NONE, pid |-> NONE, pw |-> 0, tok |-> 0, rm |-> FALSE,
-       valid |-> TRUE, d |-> 0, method |-> NONE, code |-> 0, rc |-> 0, kind |-> NONE,
+       valid |-> TRUE, d |-> 0, method |-> NONE, code |-> 0, rc |-> 0, g |-> 0, kind |-> NONE,
        prov |-> NONE, outcome |-> NONE, phone |-> 0, redir |-> NONE, k |-> NONE]
 
 R0 == [class |-> "none", loc |-> NONE, ran |-> FALSE, seenUser |-> NONE, seenKeys |-> {},
@@ -136,8 +136,10 @@ RememberAuth(h) ==
   ELSE IF c < 0 \/ ~\E t \in h.rm : t.id = c THEN [h EXCEPT !.pc = 0]
   ELSE LET t == CHOOSE t \in h.rm : t.id = c
            n == Fresh(h, "rm")
-       IN  [Bump(h, "rm") EXCEPT !.rm = (@ \ {t}) \cup {[o |-> t.o, id |-> n]},
-                                 !.cu = t.o, !.ps.uid = t.o, !.ps.half = TRUE, !.pc = n]
+       IN  \* the rest of this request already sees the half-authenticated session
+           [Bump(h, "rm") EXCEPT !.rm = (@ \ {t}) \cup {[o |-> t.o, id |-> n]},
+                                 !.cu = t.o, !.ps.uid = t.o, !.ps.half = TRUE, !.pc = n,
+                                 !.rs.uid = t.o, !.rs.half = TRUE]
 
 (* expire module *)
 Expired(s, c, now) == s.lastAct # NEVER /\ now - s.lastAct > c.expireAfter
@@ -576,6 +578,7 @@ Request(S, c, e) ==
 
 Env(S, c, e) ==
   LET S1 ==
+    IF e.act \in {"AdminLock", "AdminUnlock", "RestartConfirm", "UpdatePassword"} /\ ~S.db[e.pid].ex THEN S ELSE
     CASE e.act = "Tick" -> [S EXCEPT !.now = @ + e.d]
       [] e.act = "AdminLock" -> [S EXCEPT !.db[e.pid].lockedUntil = S.now + c.lockDuration]
       [] e.act = "AdminUnlock" ->
@@ -590,7 +593,7 @@ Env(S, c, e) ==
       [] e.act = "JunkCookie" -> [S EXCEPT !.cookie[e.b] = -1]
       [] e.act = "AppKey" -> [S EXCEPT !.sess[e.b][e.k] = TRUE]
   IN [st |-> S1,
-      resp |-> [R0 EXCEPT !.mails = IF e.act = "RestartConfirm"
+      resp |-> [R0 EXCEPT !.mails = IF e.act = "RestartConfirm" /\ S.db[e.pid].ex
                                     THEN {[to |-> e.pid, kind |-> "confirm", tok |-> S1.iss["ct"]]}
                                     ELSE {}]]
 
